@@ -259,7 +259,7 @@ class CFG:
             self._loops.append(loop)
             body_out = self._block(st.body, [(n, "true")])
             self._loops.pop()
-            self._connect([(m, "back") for m, _ in body_out], n)
+            self._connect(body_out, n)  # back edge keeps the label of the edge that closes the body
             const_true = isinstance(st.test, ast.Constant) and bool(st.test.value)
             out = [] if const_true else [(n, "false")]
             if st.orelse:
@@ -273,7 +273,7 @@ class CFG:
             self._loops.append(loop)
             body_out = self._block(st.body, [(n, "loop")])
             self._loops.pop()
-            self._connect([(m, "back") for m, _ in body_out], n)
+            self._connect(body_out, n)  # back edge keeps the label of the edge that closes the body
             out = [(n, "exhausted")]
             if st.orelse:
                 out = self._block(st.orelse, out)
